@@ -1,2 +1,135 @@
+import FpgoVerif.Proofs.C13Ask
 import FpgoVerif.Model.C13
-/-! Property theorems for C13 (none yet). -/
+import FpgoVerif.Gen.Skeletons
+import FpgoVerif.Gen.MailboxFacts
+/-! Property theorems for C13 — "Ask/Reply: every asker gets its own answer; timeouts are clean".  All statements
+    are about `C13.step`, the function the driver executes, for the code as it is now (`legacy = false`), for any
+    number of askers of any kind (AskOnce / AskOnceWithTimeout / AskChannel), any payloads, any reply function,
+    any capacities of the actor's mailbox and of the reply channels, and every schedule — the timeout of an
+    AskOnceWithTimeout may fire at any moment after the request was handed to the actor, the actor may take
+    arbitrarily long between receiving a request and calling `Reply`. -/
+namespace FpgoVerif.C13
+
+/-- No panic state is reachable: `Reply` never sends on a closed channel (not after a timeout, not after
+    AskOnce / AskOnceWithTimeout closed `ch` behind a received value), nothing is closed twice. -/
+theorem C13_no_panic {c : Cfg} {spec s} (hl : c.legacy = false) (h : Reach c spec s) : s.panicked = false :=
+  (reach_inv hl h).np
+
+/-- Correlation: whatever an asker receives — and returns — is the value the actor computed for that very
+    request, `reply i (payload i)`; no schedule routes a reply to another asker. -/
+theorem C13_correlation {c : Cfg} {spec s} (hl : c.legacy = false) (h : Reach c spec s) (i v : Nat)
+    (hv : (s.asker i).pc = .got v ∨ (s.asker i).pc = .retV v) : v = c.reply i (spec i).2.1 := by
+  have hp := (reach_inv hl h).ph i
+  have hs := (reach_static h i).1
+  unfold Phase answer at hp
+  rcases hv with hv | hv <;> rw [hv] at hp <;> simp only [PhaseOf] at hp
+  · rw [← hs]; exact hp.2.2.2
+  · rw [← hs]; exact hp.2.2
+
+/-- … also in transit: a reply channel only ever holds the answer to its own request, and the value the actor
+    is about to send in `Reply` is the answer to the request it is serving. -/
+theorem C13_in_transit {c : Cfg} {spec s} (hl : c.legacy = false) (h : Reach c spec s) (i : Nat) :
+    (∀ v ∈ (s.asker i).buf, v = c.reply i (spec i).2.1) ∧ (∀ v, s.actor = .replying i v → v = c.reply i (spec i).2.1) := by
+  have hi := reach_inv hl h
+  have hs := (reach_static h i).1
+  constructor
+  · intro v hv; have := hi.bufOK i v hv; rw [answer, hs] at this; exact this
+  · intro v hv; have := hi.actOK i v hv; rw [answer, hs] at this; exact this
+
+/-- The result of an ask is `(reply, nil)` or `(zero, ErrActorAskTimeout)`; the timeout result only comes out
+    of AskOnceWithTimeout, leaves `ch` open and `done` closed; and at most the one late reply is still around. -/
+theorem C13_timeout_clean {c : Cfg} {spec s} (hl : c.legacy = false) (h : Reach c spec s) (i : Nat)
+    (ht : (s.asker i).pc = .retT) :
+    (spec i).1 = .timeout ∧ (s.asker i).chClosed = false ∧ (s.asker i).doneClosed = true ∧ holds s i ≤ 1 := by
+  have hp := (reach_inv hl h).ph i
+  unfold Phase at hp
+  rw [ht] at hp; simp only [PhaseOf] at hp
+  exact ⟨(reach_static h i).2.1 ▸ hp.2.2.2, hp.2.1, hp.2.2.1, hp.1⟩
+
+/-- A reply produced after the timeout is discarded: when the actor is inside `Reply` for an asker that has
+    returned with the timeout, the `done` case of the select is enabled, taking it leaves the actor idle, the
+    request counted as served, and no panic. -/
+theorem C13_late_reply_discarded {c : Cfg} {spec s} (hl : c.legacy = false) (h : Reach c spec s) {i v : Nat}
+    (ha : s.actor = .replying i v) (ht : (s.asker i).pc = .retT) :
+    step c s .replyDone = some { s with actor := .idle, served := s.served ++ [i] } := by
+  have hd := (C13_timeout_clean hl h i ht).2.2.1
+  simp [step, ha, hd, hl]
+
+/-- The actor is never blocked forever in `Reply`: some case of its select is enabled, or the asker's timer has
+    fired and the asker's very next atom (`close(done)`) enables the `done` case. -/
+theorem C13_reply_never_stuck {c : Cfg} {spec s} (hl : c.legacy = false) (h : Reach c spec s) {i v : Nat}
+    (ha : s.actor = .replying i v) :
+    ((step c s .replySend).isSome = true ∧ (s.asker i).chClosed = false) ∨ (step c s .replyDone).isSome = true ∨
+      ((s.asker i).pc = .fired ∧ (step c s (.giveUp i)).isSome = true) :=
+  (reach_inv hl h).reply_progress hl ha
+
+/-- … and it keeps serving: whenever the actor is not idle or its mailbox is not empty, an atom of the actor is
+    enabled (or the one asker atom named above). -/
+theorem C13_actor_keeps_serving {c : Cfg} {spec s} (hl : c.legacy = false) (h : Reach c spec s)
+    (hw : s.actor ≠ .idle ∨ s.mbox ≠ []) :
+    (step c s .take).isSome = true ∨ (step c s .compute).isSome = true ∨ (step c s .replySend).isSome = true ∨
+      (step c s .replyDone).isSome = true ∨ ∃ i, (s.asker i).pc = .fired ∧ (step c s (.giveUp i)).isSome = true := by
+  cases ha : s.actor with
+  | idle =>
+    rcases hw with hw | hw
+    · exact absurd ha hw
+    · cases hm : s.mbox with
+      | nil => exact absurd hm hw
+      | cons i rest => left; simp [step, ha, hm]
+  | computing i => right; left; simp [step, ha]
+  | replying i v =>
+    rcases C13_reply_never_stuck hl h ha with h1 | h1 | h1
+    · exact Or.inr (Or.inr (Or.inl h1.1))
+    · exact Or.inr (Or.inr (Or.inr (Or.inl h1)))
+    · exact Or.inr (Or.inr (Or.inr (Or.inr ⟨i, h1⟩)))
+
+/-- The pinned code (the timeout path closes `ch`, `Reply` is a plain send) does reach the panic state: the
+    late-reply schedule. -/
+theorem C13_pinned_code_panics :
+    (runActs { mcap := 0, reply := replyFn, legacy := true } (St.init fun i => (.timeout, payloadOf i, 0))
+      [.call 0, .send 0, .fire 0, .giveUp 0, .compute, .replySend]).map (·.panicked) = some true := by decide
+
+/-! ## non-vacuity -/
+
+/-- three askers of the three kinds; the timeout of asker 1 fires, its late reply is discarded, asker 2 (AskChannel,
+    buffered reply channel) is served afterwards -/
+example : ∃ s, Reach { mcap := 1, reply := replyFn, legacy := false }
+      (fun i => (if i = 1 then .timeout else if i = 2 then .channel else .once, payloadOf i, if i = 2 then 1 else 0)) s ∧
+    (s.asker 0).pc = .retV 701 ∧ (s.asker 1).pc = .retT ∧ (s.asker 2).pc = .retV 885 ∧ s.served = [0, 1, 2] ∧
+    s.panicked = false :=
+  ⟨_, reach_of_run [.call 0, .call 1, .send 0, .take, .send 1, .call 2, .compute, .replySend, .finish 0, .take, .send 2,
+                    .fire 1, .compute, .giveUp 1, .replyDone, .take, .compute, .replySend, .recv 2, .finish 2] rfl,
+    rfl, rfl, rfl, rfl, rfl⟩
+
+/-- the actor inside `Reply` while the asker's timer has fired but `done` is not closed yet (the state of the
+    third disjunct of `C13_reply_never_stuck`) is reachable -/
+example : ∃ s, Reach { mcap := 0, reply := replyFn, legacy := false } (fun i => (.timeout, payloadOf i, 0)) s ∧
+    s.actor = .replying 0 701 ∧ (s.asker 0).pc = .fired :=
+  ⟨_, reach_of_run [.call 0, .send 0, .compute, .fire 0] rfl, rfl, rfl⟩
+
+/-! ## the tie: protocol skeletons and facts regenerated from the repository on every run -/
+
+theorem C13_skel_AskOnce : Gen.skeletonOf "AskDef.AskOnce" =
+    some "call(AskChannel) defer{call(close)} recv(ch) return" := by decide
+theorem C13_skel_AskOnceWithTimeout : Gen.skeletonOf "AskDef.AskOnceWithTimeout" =
+    some "call(AskChannel) select{recv(ch) set(result)=>{call(close)} | call(After) recv(After())=>{call(close) return}} return" := by decide
+theorem C13_skel_AskChannel : Gen.skeletonOf "AskDef.AskChannel" = some "call(Send) return" := by decide
+theorem C13_skel_Reply : Gen.skeletonOf "AskDef.Reply" = some "select{send(ch)=>{} | recv(done)=>{}}" := by decide
+theorem C13_skel_New : Gen.skeletonOf "AskDef.New" = some "return" := by decide
+theorem C13_skel_NewByOptions : Gen.skeletonOf "AskDef.NewByOptions" = some "return" := by decide
+theorem C13_skel_AskNewGenerics : Gen.skeletonOf "AskNewGenerics" = some "return" := by decide
+theorem C13_skel_AskNewByOptionsGenerics : Gen.skeletonOf "AskNewByOptionsGenerics" = some "return" := by decide
+theorem C13_skel_Send : Gen.skeletonOf "ActorDef.Send" =
+    some "if[get(isClosed) call(isClosed.Get)]{return} defer{call(recover)} send(ch)" := by decide
+
+/-- what is closed where: AskOnce closes `ch` (after its receive); AskOnceWithTimeout closes `ch` in the reply
+    case and `done` — not `ch` — in the timeout case -/
+theorem C13_fact_closes : Gen.askCloses =
+    [("AskDef.AskOnce", "body", "ch"), ("AskDef.AskOnceWithTimeout", "case0", "ch"),
+     ("AskDef.AskOnceWithTimeout", "case1", "done")] := by decide
+
+/-- the two selects: reply-or-timer in AskOnceWithTimeout, send-or-done in Reply -/
+theorem C13_fact_selects : Gen.mailboxSelects =
+    [("AskDef.AskOnceWithTimeout", ["recv:ch", "recv:After"]), ("AskDef.Reply", ["send:ch", "recv:done"])] := by decide
+
+end FpgoVerif.C13
